@@ -238,6 +238,83 @@ def guard_set(f, bb):
     return set(KINDS) - reach
 
 
+def _higher_order_contexts(prog, f, bb, kd, aops):
+    """An IncorrectType raised by a generic helper `f(.., exp_type, ..,
+    extract)`: the expected-type name is a parameter and the accepted kinds are
+    decided by a selector closure `extract(Value) -> Result<T, Value>` whose
+    `Err` answer leads to the error.  For every call site of f return
+    (site, type name, accepted kinds or None, note)."""
+    fi = kd["fields"].index("exp_type")
+    cp = f.canon_op(aops[fi])
+    name_arg = None
+    if cp[0][0] == "call":
+        c = f.call_at(cp[0][1])
+        if c is not None and c.args and mir.is_place_operand(c.args[0]):
+            c2 = f.canon_op(c.args[0])
+            if c2[0][0] == "arg":
+                name_arg = c2[0][1]
+    elif cp[0][0] == "arg":
+        name_arg = cp[0][1]
+    if name_arg is None:
+        return []
+    # the error is raised on the Err edge of a call of a closure parameter
+    sel_arg = None
+    idom = f.idoms()
+    cur = bb
+    for _ in range(64):
+        if cur == 0 or cur not in idom:
+            break
+        cur = idom[cur]
+        if f.term(cur)["k"] != "switch":
+            continue
+        info = f.switch_info(cur)
+        if not info or info["kind"] != "discr" or not info["enum"].startswith("std::result::Result<"):
+            continue
+        root = f.canon(info["place"])[0]
+        if root[0] != "call":
+            continue
+        cc = f.call_at(root[1])
+        if cc is None or not (cc.declared or "").startswith("std::ops::Fn"):
+            continue
+        err_t = dict(info["cases"]).get("Err", info["otherwise"])
+        if not f.dominates(err_t, bb):
+            continue
+        c0 = f.canon_op(cc.args[0])
+        if c0[0][0] == "arg":
+            sel_arg = c0[0][1]
+        break
+    if sel_arg is None:
+        return []
+    out = []
+    for site in prog.callers_of(f.path):
+        g = site.fn
+        nm = None
+        a = site.args[name_arg - 1]
+        cpa = g.canon_op(a)
+        if cpa[0][0] == "const":
+            try:
+                nm = eval(cpa[0][1])
+            except Exception:  # noqa: BLE001
+                nm = None
+        sel = g.canon_op(site.args[sel_arg - 1])
+        h = None
+        if sel[0][0] == "agg":
+            st = g.stmts(sel[0][1])[sel[0][2]]
+            if st[2][1].get("k") == "closure":
+                h = prog.fns.get(st[2][1]["def"])
+        if h is None or not h.full:
+            out.append((site, nm, None, "selector is not a closure written at the call site"))
+            continue
+        vf = mir.VariantFlow(h, [((("arg", 2),), VALUE)])
+        acc = set()
+        for k in KINDS:
+            for b2 in vf.blocks_for((k,)):
+                if ("std::result::Result", "Ok") in ops.block_constructs(prog, h, b2):
+                    acc.add(k)
+        out.append((site, nm, acc, ""))
+    return out
+
+
 def rule_R16_2(ctx):
     prog = ctx.prog
     r = RuleResult("R16.2", "typed contexts accept exactly their documented "
@@ -268,8 +345,28 @@ def rule_R16_2(ctx):
                             if cp2[0][0] == "const":
                                 name = eval(cp2[0][1]) if cp2[0][1].startswith(("'", '"')) else None
                 if name not in INCORRECT_TYPE:
-                    r.unproven.append("%s: IncorrectType with unresolved "
-                                      "expected type %r" % (f.path, name))
+                    ho = _higher_order_contexts(prog, f, bb, kd, aops)
+                    if not ho:
+                        r.unproven.append("%s: IncorrectType with unresolved "
+                                          "expected type %r" % (f.path, name))
+                        continue
+                    for (site, nm, got, why) in ho:
+                        if nm not in INCORRECT_TYPE or got is None:
+                            r.unproven.append("%s: IncorrectType via %s: %s" % (site.fn.path, f.path, why))
+                            continue
+                        lab = "IncorrectType(%s)" % nm
+                        seen[lab] = seen.get(lab, 0) + 1
+                        r.inst("%s (through %s): %s accepts %s" % (site.fn.path, f.path, lab, sorted(got)))
+                        if got == INCORRECT_TYPE[nm]:
+                            r.ok()
+                        else:
+                            extra = sorted(got - INCORRECT_TYPE[nm])
+                            missing = sorted(INCORRECT_TYPE[nm] - got)
+                            r.fail("%s | context=%s extra=%s missing=%s"
+                                   % (site.fn.root_fn().path, lab, ",".join(extra), ",".join(missing)),
+                                   "the context guarded by Error::%s in %s (selector passed to %s) accepts %s; "
+                                   "documented: %s" % (lab, site.fn.path, f.path, sorted(got),
+                                                       sorted(INCORRECT_TYPE[nm])), where=site.loc)
                     continue
                 exp = INCORRECT_TYPE[name]
                 label = "IncorrectType(%s)" % name
